@@ -341,3 +341,153 @@ Proof. intros Hok Hopen.
     rewrite Htl in E. unfold cfinish in E.
     destruct (cloop (2 ^ bits) lim (frames_at bits [sg] (im_pos im)) sc (im_pos im mod 2 ^ bits) 0 (im_pos im) (im_pos im mod 2 ^ bits))
       as [[[[[a c] b] e] ds0] ws0]. cbn [fst snd] in Hpr. inversion E; subst. exact Hpr. Qed.
+
+(* ---- one pass over the images, judged share by share ---- *)
+Section Pass.
+Variable m : mode.
+Variable raw : dlv -> fobs.                      (* how the step prints a fragment *)
+Variable pk : slot -> Z -> Z * slot * list dlv.  (* the image poll of the model *)
+Variable sc_of : slot -> list action.            (* the script the image is polled with *)
+Variable osc : oslot -> list action.             (* ... as the oracle computes it *)
+Variable cnt : list fobs -> Z.                   (* fragments of a share that count as read *)
+
+Definition jp_gen (o : oslot) (budget : Z) (share : list fobs) (p' : Z) : bool :=
+  if os_wf o then judge_poll_nw budget (osc o) (os_pos o) (os_off o) (os_frames o) (Ok (cnt share)) share p' else true.
+
+Hypothesis cnt_nil : cnt [] = 0.
+Hypothesis pk_facts : forall sl lim, slot_ok sl -> im_closed (slot_image sl) = false ->
+  img_facts m sl lim (sc_of sl) (pk sl lim) /\
+  (let '(n, _, ds) := pk sl lim in cnt (map (frag_obs m (slot_log sl)) ds) = n).
+Hypothesis osc_ok : forall sl, os_wf (oslot_of sl) = true -> osc (oslot_of sl) = sc_of sl.
+
+Definition good (sl : slot) : Prop :=
+  slot_ok sl /\ im_closed (slot_image sl) = false /\
+  (forall d, f_session (snd d) = slot_session sl -> raw d = frag_obs m (slot_log sl) d).
+
+Lemma fo_session_frag_obs l d : fo_session (frag_obs m l d) = f_session (snd d).
+Proof. destruct d as [o f]. reflexivity. Qed.
+
+Lemma pass_judged ps : forall imgs limit read rd imgs' shares,
+  Forall good imgs -> NoDup (map slot_session imgs) ->
+  poll_seq pk imgs limit read = (rd, imgs', shares) ->
+  (forall sl', In sl' imgs' -> pos_at ps (slot_id sl') = im_pos (slot_image sl')) ->
+  judge_shares jp_gen cnt (map oslot_of imgs) (concat (map (map raw) shares)) limit read ps = (true, rd) /\
+  Forall2 (fun sl sh => forall d, In d sh -> f_session (snd d) = slot_session sl) imgs shares /\
+  Forall2 (fun sl sl' => slot_ok sl' /\ im_closed (slot_image sl') = false /\ slot_log sl' = slot_log sl /\
+                         slot_session sl' = slot_session sl /\ slot_id sl' = slot_id sl /\
+                         oslot_of sl' = os_with_pos (oslot_of sl) (im_pos (slot_image sl'))) imgs imgs'.
+Proof. induction imgs as [|sl r IH]; intros limit read rd imgs' shares Hg Hnd E Hps; cbn [poll_seq] in E.
+  - inversion E; subst. cbn [map concat judge_shares]. repeat split; constructor.
+  - inversion Hg as [|? ? (Hok & Hopen & Hraw) Hgr]; subst. cbn [map] in Hnd. inversion Hnd as [|? ? Hnotin Hndr]; subst.
+    destruct (pk_facts sl (limit - read) Hok Hopen) as [Hf Hc].
+    (* the two branches are brought to one shape: a share `sh`, a count `n`, a new slot *)
+    assert (Hstep : exists n sl1 sh rd1 r1 ys,
+              poll_seq pk r limit (read + n) = (rd1, r1, ys) /\ rd = rd1 /\ imgs' = sl1 :: r1 /\ shares = sh :: ys /\
+              cnt (map (frag_obs m (slot_log sl)) sh) = n /\
+              (forall d, In d sh -> In d (seg_frames (oslot_of sl))) /\
+              jp_gen (oslot_of sl) (limit - read) (map (frag_obs m (slot_log sl)) sh) (im_pos (slot_image sl1)) = true /\
+              slot_ok sl1 /\ im_closed (slot_image sl1) = false /\ slot_log sl1 = slot_log sl /\
+              slot_session sl1 = slot_session sl /\ slot_id sl1 = slot_id sl /\
+              oslot_of sl1 = os_with_pos (oslot_of sl) (im_pos (slot_image sl1))).
+    { destruct (read <? limit) eqn:El.
+      - destruct (pk sl (limit - read)) as [[n sl1] sh]. unfold img_facts in Hf.
+        destruct Hf as (A1 & A2 & A3 & A4 & A5 & A6 & A7 & A8).
+        destruct (poll_seq pk r limit (read + n)) as [[rd1 r1] ys] eqn:E1. inversion E.
+        exists n, sl1, sh, rd1, r1, ys. repeat split; try assumption; try reflexivity; try congruence.
+        unfold jp_gen. destruct (os_wf (oslot_of sl)) eqn:Ew; [|reflexivity]. rewrite (osc_ok sl Ew), Hc. apply (proj1 (A8 eq_refl)).
+      - destruct (poll_seq pk r limit read) as [[rd1 r1] ys] eqn:E1. inversion E.
+        exists 0, sl, [], rd1, r1, ys. rewrite Z.add_0_r. cbn [map]. repeat split; try assumption; try reflexivity; try congruence.
+        + intros d [].
+        + unfold jp_gen. destruct (os_wf (oslot_of sl)); [|reflexivity]. rewrite cnt_nil.
+          destruct sl as [[[[[id bits] init] se] sg] im]. cbn [oslot_of os_pos slot_image]. apply judge_nw_idle.
+        + destruct sl as [[[[[id bits] init] se] sg] im]. reflexivity. }
+    destruct Hstep as (n & sl1 & sh & rd1 & r1 & ys & E1 & -> & -> & -> & Hcn & Hin & Hjp & B1 & B2 & B3 & B4 & B5 & B6).
+    assert (Hps' : forall sl', In sl' r1 -> pos_at ps (slot_id sl') = im_pos (slot_image sl')) by (intros; apply Hps; right; assumption).
+    destruct (IH limit (read + n) rd1 r1 ys Hgr Hndr E1 Hps') as (J1 & J2 & J3).
+    assert (Hsess : forall d, In d sh -> f_session (snd d) = slot_session sl).
+    { intros d Hd. apply seg_frames_session; auto. }
+    split; [|split].
+    + cbn [map concat judge_shares].
+      assert (Hmap : map raw sh = map (frag_obs m (slot_log sl)) sh).
+      { apply map_ext_in. intros d Hd. apply Hraw. apply Hsess. assumption. }
+      assert (Hse : os_session (oslot_of sl) = slot_session sl) by (destruct sl as [[[[[? ?] ?] ?] ?] ?]; reflexivity).
+      rewrite Hse, take_session_app.
+      * assert (Hid : os_id (oslot_of sl) = slot_id sl) by (destruct sl as [[[[[? ?] ?] ?] ?] ?]; reflexivity).
+        rewrite Hid, <- B5, (Hps sl1 (or_introl eq_refl)), Hmap, Hjp, Hcn, J1. reflexivity.
+      * intros x Hx. apply in_map_iff in Hx as (d & <- & Hd). rewrite Hraw by (apply Hsess; assumption).
+        rewrite fo_session_frag_obs. apply Hsess. assumption.
+      * (* what follows belongs to later images, whose sessions differ *)
+        destruct (concat (map (map raw) ys)) as [|x rest] eqn:Ec; [exact I|].
+        assert (Hx : In x (concat (map (map raw) ys))) by (rewrite Ec; left; reflexivity).
+        apply in_concat in Hx as (l0 & Hl0 & Hx). apply in_map_iff in Hl0 as (sh2 & <- & Hsh2).
+        apply in_map_iff in Hx as (d & <- & Hd).
+        clear -J2 Hsh2 Hd Hnotin Hgr. revert ys J2 Hsh2 Hgr Hnotin. induction r as [|s2 r IHr]; intros ys J2 Hsh2 Hgr Hnotin.
+        { inversion J2; subst. destruct Hsh2. }
+        inversion J2 as [|? ? ? ? Hhead Htail]; subst. inversion Hgr as [|? ? (Hok2 & Hop2 & Hraw2) Hgr2]; subst.
+        cbn [map] in Hnotin. destruct Hsh2 as [->|Hsh2].
+        -- rewrite Hraw2 by (apply Hhead; assumption). rewrite fo_session_frag_obs, (Hhead d Hd).
+           intros Heq. apply Hnotin. left. exact Heq.
+        -- apply (IHr l'); try assumption. intros Hc. apply Hnotin. right. exact Hc.
+    + constructor; assumption.
+    + constructor; [|assumption]. repeat split; assumption. Qed.
+
+End Pass.
+
+(* ---- the two image polls of a subscription satisfy the hypotheses of the pass ---- *)
+Lemma pk_poll_is sl lim : pk_poll sl lim = pk_of sl (image_controlled_poll (slot_log sl) (slot_image sl) lim []).
+Proof. unfold pk_poll, pk_of. rewrite poll_as_controlled. reflexivity. Qed.
+
+Lemma pk_cpoll_is salt tab sl lim :
+  pk_cpoll salt tab sl lim = pk_of sl (image_controlled_poll (slot_log sl) (slot_image sl) lim (script_for salt tab sl)).
+Proof. reflexivity. Qed.
+
+Definition cnt_len (sh : list fobs) : Z := Z.of_nat (length sh).
+
+Lemma pk_poll_facts m sl lim : slot_ok sl -> im_closed (slot_image sl) = false ->
+  img_facts m sl lim [] (pk_poll sl lim) /\
+  (let '(n, _, ds) := pk_poll sl lim in cnt_len (map (frag_obs m (slot_log sl)) ds) = n).
+Proof. intros Hok Hopen. split; [rewrite pk_poll_is; apply controlled_facts; assumption|].
+  unfold pk_poll, image_poll, cnt_len. rewrite Hopen.
+  destruct (sel (slot_log sl) (im_pos (slot_image sl))) as [[fs off]| | | |]; cbn [bind]; try reflexivity.
+  unfold term_read. pose proof (read_loop_count (l_tlen (slot_log sl)) lim fs off 0) as Hc.
+  destruct (read_loop (l_tlen (slot_log sl)) lim fs off 0) as [[o c] ds]. rewrite map_length. lia. Qed.
+
+Lemma filter_map_frag_obs m l (g : Z -> action) ds :
+  length (filter (fun r => negb (is_abort (g (fo_offset r - HDR)))) (map (frag_obs m l) ds))
+  = length (filter (fun d => negb (is_abort (g (fst d)))) ds).
+Proof. induction ds as [|[o f] r IH]; [reflexivity|]. cbn [map filter fst].
+  assert (E : fo_offset (frag_obs m l (o, f)) - HDR = o) by (unfold frag_obs, fo_offset; lia). rewrite E.
+  destruct (negb (is_abort (g o))); cbn [length]; rewrite IH; reflexivity. Qed.
+
+Lemma pk_cpoll_facts m salt tab sl lim : slot_ok sl -> im_closed (slot_image sl) = false ->
+  img_facts m sl lim (script_for salt tab sl) (pk_cpoll salt tab sl lim) /\
+  (let '(n, _, ds) := pk_cpoll salt tab sl lim in consumed_count salt tab (map (frag_obs m (slot_log sl)) ds) = n).
+Proof. intros Hok Hopen. split; [rewrite pk_cpoll_is; apply controlled_facts; assumption|].
+  unfold pk_cpoll, image_controlled_poll, script_for, consumed_count. rewrite Hopen.
+  destruct (sel (slot_log sl) (im_pos (slot_image sl))) as [[fs off]| | | |]; cbn [bind]; try reflexivity.
+  pose proof (cloop_count (l_tlen (slot_log sl)) lim (answer salt tab) fs off 0 (im_pos (slot_image sl)) off) as Hc.
+  unfold cfinish.
+  destruct (cloop (l_tlen (slot_log sl)) lim fs (map (fun d => answer salt tab (fst d)) (data_of (place off fs))) off 0
+              (im_pos (slot_image sl)) off) as [[[[[a c] b] e] ds] ws].
+  rewrite filter_map_frag_obs. lia. Qed.
+
+Lemma os_script_ok salt tab sl : os_wf (oslot_of sl) = true -> os_script salt tab (oslot_of sl) = script_for salt tab sl.
+Proof. destruct sl as [[[[[id bits] init] se] sg] im]. intros Hwf. pose proof (os_wf_ctx _ _ _ _ _ _ Hwf) as Hc.
+  unfold script_for, os_script. cbn [slot_log slot_image]. rewrite (ctx_sel _ _ _ _ _ Hc). reflexivity. Qed.
+
+(* ---- fairness: the image the rotation starts with is served first ---- *)
+Lemma fair_first_pass m raw pk sc_of imgs limit rd imgs' shares :
+  (forall sl lim, slot_ok sl -> im_closed (slot_image sl) = false -> img_facts m sl lim (sc_of sl) (pk sl lim)) ->
+  Forall (good m raw) imgs ->
+  poll_seq pk imgs limit 0 = (rd, imgs', shares) ->
+  fair_first (map oslot_of imgs) (concat (map (map raw) shares)) limit = true.
+Proof. intros Hfacts Hg E. destruct imgs as [|sl r]; [reflexivity|]. cbn [map fair_first].
+  destruct ((0 <? limit) && os_wf (oslot_of sl) && has_data (os_frames (oslot_of sl))) eqn:Ec; [|reflexivity].
+  apply andb_prop in Ec as [Ec Hd]. apply andb_prop in Ec as [Hl Hw].
+  inversion Hg as [|? ? (Hok & Hopen & Hraw) _]; subst. cbn [poll_seq] in E. rewrite Hl in E. rewrite Z.sub_0_r in E.
+  pose proof (Hfacts sl limit Hok Hopen) as Hf. destruct (pk sl limit) as [[n sl1] sh]. unfold img_facts in Hf.
+  destruct Hf as (_ & _ & _ & _ & _ & _ & A7 & A8). destruct (A8 Hw) as [_ Hpr]. specialize (Hpr ltac:(lia) Hd).
+  destruct (poll_seq pk r limit (0 + n)) as [[rd1 r1] ys]. inversion E; subst.
+  destruct sh as [|d sh']; [contradiction|]. cbn [map concat app].
+  assert (Hs : f_session (snd d) = slot_session sl) by (apply seg_frames_session; [assumption|apply A7; left; reflexivity]).
+  rewrite (Hraw d Hs), fo_session_frag_obs, Hs. destruct sl as [[[[[? ?] ?] ?] ?] ?]. cbn. apply Z.eqb_refl. Qed.
